@@ -109,6 +109,18 @@ class LongTextError(Exception):
         return "long text " + "é" * 100000
 
 
+class _ComparingMeta(type):
+    """Classes that compare by value (ORM-style declarative classes, interface/registry metaclasses define __eq__ like this): defining
+    __eq__ without __hash__ makes the class objects unhashable."""
+
+    def __eq__(cls, other):
+        return cls is other
+
+
+class UnhashableClassError(Exception, metaclass=_ComparingMeta):
+    """An exception class that cannot be used as a dictionary key."""
+
+
 class Outer(object):
     class NestedError(LookupError):
         """__qualname__ differs from __name__."""
@@ -159,6 +171,7 @@ POOL = {
     "UnicodeDecodeError": UnicodeDecodeError,
     "RemoteError": RemoteError,
     "OddSyntaxError": SyntaxError,
+    "UnhashableClassError": UnhashableClassError,
 }
 
 
